@@ -202,8 +202,16 @@ func jsonParsley(p parsley.Parser, doc []byte, before []int) (got interface{}, e
 	}
 	f := text.NewFile("f", doc)
 	fs.AddFile(f)
-	ctx := parsley.NewContext(fs, text.NewReader(f))
-	got, err = parsley.Evaluate(ctx, p)
+	rd := text.NewReader(f)
+	got, err = parsley.Evaluate(parsley.NewContext(fs, rd), p)
+	// the same File evaluated again (a second pass over one document): nothing may have changed
+	got2, err2 := parsley.Evaluate(parsley.NewContext(fs, text.NewReader(f)), p)
+	if (err == nil) != (err2 == nil) || (err != nil && err.Error() != err2.Error()) || !reflect.DeepEqual(got, got2) {
+		pan = fmt.Sprintf("second evaluation of the same File differs: first (%#v, %v), second (%#v, %v)", got, err, got2, err2)
+	}
+	if now := readerBytes(f, rd); now != string(specNormalise(doc)) {
+		pan = fmt.Sprintf("the File's bytes changed during evaluation: %q", now)
+	}
 	return
 }
 
@@ -227,6 +235,9 @@ func c16exec(j run.Job, a *run.Acc) {
 			got, perr, pan := jsonParsley(p, []byte(doc), nil)
 			d := map[string]any{"document": doc}
 			switch {
+			case strings.HasPrefix(pan, "second evaluation") || strings.HasPrefix(pan, "the File's bytes"):
+				d["observed"] = pan
+				a.Violate("state-leaks-between-evaluations-of-one-file", "state-leaks-between-evaluations-of-one-file", d)
 			case pan != "":
 				d["panic"] = pan
 				a.Violate("panic", "panic", d)
